@@ -164,6 +164,7 @@ type simTransport struct {
 	closeErr error
 	logFrom int
 	prevStep []byte            // the last genuine reply of the previous step
+	stepCtx context.Context    // the caller's context of the current step
 	cancel  context.CancelFunc // ends the step when it transmits without bound
 	runaway bool
 	udp     bool       // driven by the UDP bridge: never blocks, a missing reply is simply not sent
@@ -216,8 +217,13 @@ func (t *simTransport) Close() error      { t.closed = true; return t.closeErr }
 var errLost = errors.New("i/o timeout (simulated lost reply)")
 
 func (t *simTransport) Send(ctx context.Context, d []byte) ([]byte, error) {
-	if err := ctx.Err(); err != nil && !t.udp {
-		return nil, err
+	// an expired CALLER context means nothing is transmitted; the per-attempt timeout is not consulted here: whether the
+	// goroutine was descheduled between creating the attempt context and sending is scheduling, not library logic,
+	// and must not decide the outcome of a scripted history (only the "silence" action waits for the attempt's deadline)
+	if t.stepCtx != nil {
+		if err := t.stepCtx.Err(); err != nil && !t.udp {
+			return nil, err
+		}
 	}
 	if t.n >= maxTransmissions {
 		t.runaway = true
@@ -755,7 +761,10 @@ func runStepM(st *scnState, step *scnStep, withMetrics bool) (res stepResult) {
 		defer tm.Stop()
 	}
 	defer cancel()
+	t.mu.Lock()
 	t.cancel, t.runaway = cancel, false
+	t.stepCtx = ctx
+	t.mu.Unlock()
 	start := time.Now()
 	func() {
 		defer func() {
